@@ -330,7 +330,7 @@ func ruleNumDigitsSymmetry(w *World, r *RuleResult) {
 					continue
 				}
 				// guard: the dominating tests on b.Sign() (and b.BitLen() != 0) leave exactly this sign
-				poss := w.possibleSigns(f, c.Block(), bp)
+				poss := w.possibleSignsThroughCallers(f, c.Block(), bp)
 				g := len(poss) == 1 && poss[0] == a.sign
 				// inside edge returns the entry's digits: cmp <op> 0 true → return val.digits
 				inside := false
@@ -343,8 +343,18 @@ func ruleNumDigitsSymmetry(w *World, r *RuleResult) {
 						if k, isK := bo.Y.(*ssa.Const); !isK || ci(k) != 0 {
 							continue
 						}
+						// the comparison may be merged with the other arm's into one boolean first
+						users := []ssa.Instruction{}
 						if br := bo.Referrers(); br != nil {
 							for _, x := range *br {
+								users = append(users, x)
+								if ph, isPhi := x.(*ssa.Phi); isPhi && ph.Referrers() != nil {
+									users = append(users, *ph.Referrers()...)
+								}
+							}
+						}
+						{
+							for _, x := range users {
 								if iff, isIf := x.(*ssa.If); isIf {
 									tb := iff.Block().Succs[0]
 									if rt, isRet := tb.Instrs[len(tb.Instrs)-1].(*ssa.Return); isRet && strings.HasSuffix(w.exprOf(f, rt.Results[0]).String(), ".digits") {
@@ -382,6 +392,12 @@ func ruleNumDigitsSymmetry(w *World, r *RuleResult) {
 				if e == ssa.Value(bp) {
 					selfOK = true
 					continue
+				}
+				// the other edge: the result of Abs(b) itself
+				if ac, isCall := e.(*ssa.Call); isCall && w.calleeName(ac) == "(*BigInt).Abs" && len(ac.Common().Args) == 2 && ac.Common().Args[1] == ssa.Value(bp) {
+					if _, isA := basePtr(ac.Common().Args[0]).(*ssa.Alloc); isA && ac.Block() == phi.Block().Preds[i] {
+						absOK = true
+					}
 				}
 				// the other edge: a local set by Abs(b) under Sign() < 0
 				for _, ac := range w.callsTo(f, "(*BigInt).Abs") {
@@ -475,6 +491,43 @@ func (w *World) possibleSigns(f *ssa.Function, b *ssa.BasicBlock, v ssa.Value) [
 	var out []int64
 	for _, sv := range []int64{-1, 0, 1} {
 		if ok[sv] {
+			out = append(out, sv)
+		}
+	}
+	return out
+}
+
+// possibleSignsThroughCallers: possibleSigns, and when v is a parameter of an unexported helper also what
+// the tests at every call site leave of the argument's signs (a helper split off behind its caller's
+// `bl == 0` test never sees zero).
+func (w *World) possibleSignsThroughCallers(f *ssa.Function, b *ssa.BasicBlock, v ssa.Value) []int64 {
+	own := w.possibleSigns(f, b, v)
+	prm, isP := v.(*ssa.Parameter)
+	if !isP || f.Object() == nil || f.Object().Exported() {
+		return own
+	}
+	idx := -1
+	for i, q := range f.Params {
+		if q == prm {
+			idx = i
+		}
+	}
+	callers := w.callersOf(f)
+	if idx < 0 || len(callers) == 0 {
+		return own
+	}
+	fromCallers := map[int64]bool{}
+	for _, c := range callers {
+		if idx >= len(c.Common().Args) {
+			return own
+		}
+		for _, sv := range w.possibleSigns(c.Parent(), c.Block(), c.Common().Args[idx]) {
+			fromCallers[sv] = true
+		}
+	}
+	var out []int64
+	for _, sv := range own {
+		if fromCallers[sv] {
 			out = append(out, sv)
 		}
 	}
